@@ -222,6 +222,41 @@ Fixpoint propagate_t (fuel : nat) (s : state) (work : list node) : res state :=
       end
   end.
 
+(** the same two propagations with the order in which the callers of a node are expanded chosen
+    by an oracle (the dirty worker's tasks are stolen in any order); [propagate] and
+    [propagate_t] are the instances with [fun _ _ l => l] (convertible) *)
+Section PropO.
+Variable pord : state -> node -> list node -> list node.
+Fixpoint propagate_o (fuel : nat) (s : state) (work : list node) : res state :=
+  match fuel with
+  | O => OutOfFuel
+  | S f =>
+      match work with
+      | [] => Ok s
+      | x :: r =>
+          if nmem x (s_visited s) then propagate_o f s r
+          else
+            let s1 := set_visited s (x :: s_visited s) in
+            let '(s2, work') := mark_callers s1 x (pord s1 x (callers_of s1 x)) r in
+            propagate_o f s2 work'
+      end
+  end.
+Fixpoint propagate_t_o (fuel : nat) (s : state) (work : list node) : res state :=
+  match fuel with
+  | O => OutOfFuel
+  | S f =>
+      match work with
+      | [] => Ok s
+      | x :: r =>
+          if nmem x (s_visited s) then propagate_t_o f s r
+          else
+            let s1 := set_visited s (x :: s_visited s) in
+            let '(s2, work') := mark_callers_t s1 x (pord s1 x (callers_of s1 x)) r in
+            propagate_t_o f s2 work'
+      end
+  end.
+End PropO.
+
 (** * set_computed / clean_query / set_computed_input (database.rs) *)
 Definition unwire (s : state) (n : node) (old : list dep) (clean_dirty : bool) : state :=
   fold_left (fun s c =>
@@ -328,6 +363,8 @@ Variable panic_at : option node.
     engine iterates hash sets; the order may depend on anything, so it gets the state) *)
 Variable tfc_order : state -> node -> list node -> list node.
 Variable bp_order : state -> node -> list node -> list node.
+(** ... and the order in which the dirty propagation expands the callers of a node *)
+Variable prop_order : state -> node -> list node -> list node.
 
 Definition body (n : node) : option expr := alookup p n.
 
@@ -451,8 +488,8 @@ with execute_o (fuel : nat) (stk : list node) (c : caller) (n : node) (recompute
                                    && negb (nset_eqb (i_tfc i) (fr_tfc fr2))
                        | None => false end in
     let follow := match c with CRepairFirewall | CBPP => true | _ => false end in
-    let* s2 := if changed then (if follow then propagate (S f * 4) s1 [n] else propagate_t (S f * 4) s1 [n])
-               else if tfc_changed then propagate_t (S f * 4) s1 [n] else Ok s1 in
+    let* s2 := if changed then (if follow then propagate_o prop_order (S f * 4) s1 [n] else propagate_t_o prop_order (S f * 4) s1 [n])
+               else if tfc_changed then propagate_t_o prop_order (S f * 4) s1 [n] else Ok s1 in
     Ok (marks, set_computed s2 n v fr2 changed recompute)
   end
 
@@ -604,11 +641,11 @@ End Run.
 
 (** the schedule in list order *)
 Definition ord_id : state -> node -> list node -> list node := fun _ _ l => l.
-Definition query_for (p : program) (pa : option node) := query_for_o p pa ord_id ord_id.
-Definition execute (p : program) (pa : option node) := execute_o p pa ord_id ord_id.
-Definition eval (p : program) (pa : option node) := eval_o p pa ord_id ord_id.
-Definition repair (p : program) (pa : option node) := repair_o p pa ord_id ord_id.
-Definition backward (p : program) (pa : option node) := backward_o p pa ord_id ord_id.
+Definition query_for (p : program) (pa : option node) := query_for_o p pa ord_id ord_id ord_id.
+Definition execute (p : program) (pa : option node) := execute_o p pa ord_id ord_id ord_id.
+Definition eval (p : program) (pa : option node) := eval_o p pa ord_id ord_id ord_id.
+Definition repair (p : program) (pa : option node) := repair_o p pa ord_id ord_id ord_id.
+Definition backward (p : program) (pa : option node) := backward_o p pa ord_id ord_id ord_id.
 
 (** * histories *)
 Inductive sres := SFresh | SUpdated | SUnchanged.
@@ -625,7 +662,7 @@ Definition fuel0 : nat := 400.
 Definition restart (s : state) : state := set_log (set_stat (set_visited s []) 0%N) [].
 
 (** one operation of a history on the model *)
-Definition step_o (tfc_order bp_order : state -> node -> list node -> list node)
+Definition step_op (tfc_order bp_order prop_order : state -> node -> list node -> list node)
   (p : program) (s : state) (o : op) : state * opres :=
   let s := set_log s [] in
   match o with
@@ -633,7 +670,7 @@ Definition step_o (tfc_order bp_order : state -> node -> list node -> list node)
       (set_world s ((i, v) :: filter (fun '(k, _) => negb (k =? i)%N) (s_world s)), mkRes RUnit [] None)
   | ORestart => (restart s, mkRes RUnit [] None)
   | OQuery n =>
-      match query_for_o p None tfc_order bp_order fuel0 [] CUser None n s with
+      match query_for_o p None tfc_order bp_order prop_order fuel0 [] CUser None n s with
       | Ok (QValue (Some z), _, _, s') => (s', mkRes (RValue z) (rev (s_log s')) (Some (s_stat s')))
       | Ok (_, _, _, s') => (s', mkRes RPanic (rev (s_log s')) (Some (s_stat s')))
       | Panic _ => (s, mkRes RPanic [] None)
@@ -663,18 +700,24 @@ Definition step_o (tfc_order bp_order : state -> node -> list node -> list node)
         else (s1, batch) in
       (* commit: reset statistic, clear dirtied_queries, propagate *)
       let s3 := set_visited (set_stat s2 0%N) [] in
-      match propagate 4000 s3 batch2 with
+      match propagate_o prop_order 4000 s3 batch2 with
       | Ok s4 => (s4, mkRes (RSession rs) (rev (s_log s4)) None)
       | _ => (s3, mkRes RFuel [] None)
       end
   end.
 
+(** the dirty propagation in list order *)
+Definition step_o (tfc_order bp_order : state -> node -> list node -> list node) : program -> state -> op -> state * opres :=
+  step_op tfc_order bp_order ord_id.
 Definition step : program -> state -> op -> state * opres := step_o ord_id ord_id.
 
-Fixpoint run_history_o (tfc_order bp_order : state -> node -> list node -> list node)
+Fixpoint run_history_op (tfc_order bp_order prop_order : state -> node -> list node -> list node)
   (p : program) (s : state) (ops : list op) : list opres :=
   match ops with
   | [] => []
-  | o :: r => let '(s', x) := step_o tfc_order bp_order p s o in x :: run_history_o tfc_order bp_order p s' r
+  | o :: r => let '(s', x) := step_op tfc_order bp_order prop_order p s o in
+              x :: run_history_op tfc_order bp_order prop_order p s' r
   end.
+Definition run_history_o (tfc_order bp_order : state -> node -> list node -> list node)
+  : program -> state -> list op -> list opres := run_history_op tfc_order bp_order ord_id.
 Definition run_history : program -> state -> list op -> list opres := run_history_o ord_id ord_id.
